@@ -73,6 +73,17 @@ impl<'a> StateRegistry<'a> {
         self.parent.as_deref_mut()
     }
 
+    /// Returns the number of ancestors of the registry.
+    pub(crate) fn depth(&self) -> usize {
+        let mut depth = 0;
+        let mut registry = self;
+        while let Some(parent) = registry.parent() {
+            depth += 1;
+            registry = parent;
+        }
+        depth
+    }
+
     /// Pushes a new registry on the stack and returns it, taking ownership of the old registry.
     pub fn into_child(self) -> Self {
         Self {
